@@ -14,6 +14,7 @@ static or a lookup table.
 """
 import os
 import re
+import struct as _struct
 import sys
 from . import facts as F
 
@@ -255,6 +256,55 @@ class Closure:
 
     def __repr__(self):
         return "closure:" + self.path
+
+
+class Flt:
+    """A known IEEE float: `v` is the value as a Python float (for an f32 already rounded to f32), `ty` f32 / f64."""
+    __slots__ = ("v", "ty")
+
+    def __init__(self, v, ty="f64"):
+        self.v = _round_f32(v) if ty == "f32" else float(v)
+        self.ty = ty
+
+    def __repr__(self):
+        return "%r_%s" % (self.v, self.ty)
+
+    def __eq__(self, o):
+        # identity of the datum (bit pattern), not IEEE equality: used for "the same value was handed on"
+        return isinstance(o, Flt) and o.ty == self.ty and _struct.pack("<d", o.v) == _struct.pack("<d", self.v)
+
+    def __hash__(self):
+        return hash((self.ty, _struct.pack("<d", self.v)))
+
+
+def _round_f32(x):
+    x = float(x)
+    if x != x or x in (float("inf"), float("-inf")):
+        return x
+    try:
+        return _struct.unpack("<f", _struct.pack("<f", x))[0]
+    except OverflowError:
+        return float("inf") if x > 0 else float("-inf")
+
+
+def flt_from_bits(bits, ty):
+    if ty == "f32":
+        return Flt(_struct.unpack("<f", _struct.pack("<I", bits & 0xFFFFFFFF))[0], "f32")
+    return Flt(_struct.unpack("<d", _struct.pack("<Q", bits & 0xFFFFFFFFFFFFFFFF))[0], "f64")
+
+
+def flt_to_int(f, ty):
+    """`f as <int>`: saturating, NaN -> 0."""
+    lo, hi = _ty_range(ty) or (None, None)
+    if lo is None:
+        return UNK
+    if f.v != f.v:
+        return 0
+    if f.v == float("inf"):
+        return hi
+    if f.v == float("-inf"):
+        return lo
+    return max(lo, min(hi, int(f.v)))
 
 
 def known(v):
@@ -552,6 +602,8 @@ class Sim:
             if "int" in op:
                 v = op["int"]
                 return int(v) if isinstance(v, str) else v
+            if "fbits" in op and op.get("ty") in ("f32", "f64"):
+                return flt_from_bits(int(op["fbits"]), op["ty"])
             if "bytes" in op:
                 ty = op.get("ty", "").replace("&'static ", "&").replace("&mut ", "&")
                 if ty.startswith("&[u8") or ty in ("&str", "str") or ty.startswith("[u8"):
@@ -627,6 +679,8 @@ class Sim:
                     return wrap(~a, ty) if ty in INT_BITS else UNK
                 return UNK
             if op == "Neg":
+                if isinstance(a, Flt):
+                    return Flt(-a.v, a.ty)
                 if isinstance(a, int):
                     return wrap(-a, self._op_ty(env, rv["a"], fn))
                 return UNK
@@ -647,6 +701,14 @@ class Sim:
         if k == "cast":
             a = self.operand(env, rv["op"], path)
             ck = rv["ck"]
+            if ck.startswith("IntToFloat") and isinstance(a, int) and rv["to"] in ("f32", "f64"):
+                if rv["to"] == "f64" and abs(a) < (1 << 1000) or abs(a) <= (1 << 53):
+                    return Flt(float(a), rv["to"])       # one rounding to nearest-even, as `as` does
+                return UNK
+            if ck.startswith("FloatToFloat") and isinstance(a, Flt) and rv["to"] in ("f32", "f64"):
+                return Flt(a.v, rv["to"])
+            if ck.startswith("FloatToInt") and isinstance(a, Flt):
+                return flt_to_int(a, rv["to"])
             if ck.startswith("IntToInt"):
                 if isinstance(a, Rng):
                     tr = _ty_range(rv["to"])
@@ -691,6 +753,24 @@ class Sim:
         return ""
 
     def binop(self, op, a, b, ty):
+        if isinstance(a, Flt) and isinstance(b, Flt):
+            x, y = a.v, b.v
+            if op in ("Eq", "Ne", "Lt", "Le", "Gt", "Ge"):
+                return int({"Eq": x == y, "Ne": x != y, "Lt": x < y, "Le": x <= y, "Gt": x > y, "Ge": x >= y}[op])
+            try:
+                if op == "Add":
+                    return Flt(x + y, a.ty)
+                if op == "Sub":
+                    return Flt(x - y, a.ty)
+                if op == "Mul":
+                    return Flt(x * y, a.ty)
+                if op == "Div" and y != 0:
+                    return Flt(x / y, a.ty)
+            except OverflowError:
+                pass
+            return UNK
+        if isinstance(a, Flt) or isinstance(b, Flt):
+            return UNK
         if isinstance(a, Rng) or isinstance(b, Rng):
             r = rng_binop(op, a, b, ty)
             if r is not None:
@@ -1582,6 +1662,9 @@ class Sim:
             lf = self.find_fn(c["resolved"], c.get("resolved_crate")) if c.get("resolved") else None
             if lf is not None and not lf.derived and c.get("resolved_kind", "Item") == "Item":
                 return None
+            if isinstance(a, Flt) and isinstance(b, Flt):
+                r = a.v == b.v          # IEEE equality
+                return ("value", int(r if c.get("method") == "eq" else not r))
             if type(a) is not type(b) and not (isinstance(a, int) and isinstance(b, int)):
                 return ("value", UNK) if not (known(a) and known(b)) else None
             if known(a) and known(b) and not isinstance(a, (FnItem, Closure)) and _comparable(a) and _comparable(b):
@@ -1619,6 +1702,10 @@ class Sim:
             a = d[0] if d else UNK
             if len(substs) >= 2 and substs[0] == substs[1] and args:
                 return ("value", args[0])      # the reflexive `impl<T> From<T> for T`
+            if len(substs) >= 2 and d and isinstance(d[0], Flt):
+                to, frm = (substs[0], substs[1]) if has("std::convert::From::from") else (substs[1], substs[0])
+                if to == "f64" and frm == "f32":
+                    return ("value", Flt(d[0].v, "f64"))     # exact widening
             if isinstance(a, Rng) and len(substs) >= 2 and substs[0] in INT_BITS and substs[1] in INT_BITS:
                 return ("value", a)      # lossless widening keeps the quantity
             if isinstance(a, int) and len(substs) >= 2 and substs[0] in INT_BITS and substs[1] in INT_BITS:
